@@ -111,7 +111,7 @@ PROPS = {
         gens=[tlc("c07"), rand("views", 500, "quick"), rand("views", 30000, "thorough")],
         tv_props=["C07", "DRIFT"],
         mc=[dict(module="MC_IoM.tla", cfg="MC_IoM"),
-            dict(module="MC_IoM.tla", cfg="MC_IoM_keepgoing", expect="PrefixOnly")],
+            dict(module="MC_IoM.tla", cfg="MC_IoM_keepgoing", expect=["PrefixOnly", "NoCallAfterError"])],
         must_fire=["C07.source_is_text", "C07.buffer", "C07.size_is_buffer_len", "C07.rope_renders_to_text", "C07.writer", "C07.writer_script"],
         rule="all five content views plus failing writers; non-trivial = composite tree or a binary leaf",
         nontrivial=lambda p: bool(prog_kinds(p) & {"concat", "replace", "cached"}),
